@@ -8,7 +8,7 @@ their path, @end closes, same path switches, outer path closes down to it, inner
 (R4) blocks left by de-indentation are closed, in a loop, before the first skip test of a line, for
 every line kind that takes part in the hierarchy, with the closing condition
 indent < clause indent, or = and the line is not itself a clause. NOT decided: evaluation of the
-conditions (C18); equivalence of the path-string comparison with true nesting."""
+conditions (C18); equivalence of the path-string comparison with true nesting. (R5) clause markers of any number are stripped from node names (regex AST vs the unbounded clause counter)."""
 import ast
 
 from ..literal import Evaluator
